@@ -151,6 +151,9 @@ def sort_key(ks):
     return key
 
 
+KF_PUSHDOWN_RULES = ["pushdown-join-condition-left", "pushdown-join-condition-left-1", "pushdown-join-condition-right", "pushdown-join-condition-right-1"]
+
+
 def classify(q, tags, a_batches, b_batches, rl):
     bx = [r[0] for b in b_batches for r in b]
     ax = [r[0] for b in a_batches for r in b]
@@ -176,8 +179,12 @@ def run(R, only=None):
             steps.append({"sql": "insert into a values " + ", ".join("(" + ", ".join(lit(v) for v in r) + ")" for r in batch)})
         for batch in b_b:
             steps.append({"sql": "insert into b values " + ", ".join("(" + ", ".join(lit(v) for v in r) + ")" for r in batch)})
+        n0 = len(steps)
         steps += [{"explain": rlq}, {"sql": rlq}, {"sql": "pragma disable_optimizer"}, {"sql": rlq}]
-        cases.append({"engine": engine, "steps": steps, "a": a_b, "b": b_b, "q": rlq, "sq": sq, "ks": ks, "tags": tags})
+        if "pushable" in tags:
+            # a third run without the rules the outer-join finding of C01 lists: what that finding explains must disappear with them
+            steps += [{"sql": "pragma enable_optimizer"}, {"disable_rules": KF_PUSHDOWN_RULES}, {"sql": rlq}]
+        cases.append({"engine": engine, "steps": steps, "a": a_b, "b": b_b, "q": rlq, "sq": sq, "ks": ks, "tags": tags, "n0": n0})
     # ORDER BY .. LIMIT / OFFSET beyond one processing window (1024 rows)
     for i in range(3 if R.tier == "quick" else 12):
         nrows = R.rng.choice([1500, 2100])
@@ -189,9 +196,10 @@ def run(R, only=None):
         for part in (big[: nrows // 2], big[nrows // 2:]):
             steps.append({"sql": "insert into a values " + ", ".join("(" + ", ".join(lit(v) for v in r) + ")" for r in part)})
         q = f"select x, y, s from a order by x{' desc' if i % 2 else ''}"
+        n0 = len(steps)
         steps += [{"explain": q + tail}, {"sql": q + tail}, {"sql": "pragma disable_optimizer"}, {"sql": q + tail}]
         cases.append({"engine": R.rng.choice(["mem", "disk"]), "steps": steps, "a": [big], "b": [], "q": q + tail, "sq": q + stail,
-                      "ks": [(0, bool(i % 2))], "tags": {"order", "big"}})
+                      "ks": [(0, bool(i % 2))], "tags": {"order", "big"}, "n0": n0})
     outs = run_harness("sql", [{"engine": c["engine"], "steps": c["steps"]} for c in cases], jobs=16)
     nontriv, kinds, skipped = set(), {}, 0
     for c, o in zip(cases, outs):
@@ -201,17 +209,23 @@ def run(R, only=None):
         if isinstance(ref, tuple):
             skipped += 1
             continue
-        last = o[-3] if isinstance(o, list) and len(o) >= 3 else {"abort": str(o)[:100]}
+        full = isinstance(o, list) and len(o) >= len(c["steps"])
+        n0 = c["n0"]
+        last = o[n0 + 1] if full else {"abort": str(o)[:100]}
         rl = norm_rl(last)
-        rl_off = norm_rl(o[-1]) if isinstance(o, list) and o else None
+        rl_off = norm_rl(o[n0 + 3]) if full else None
+        rl_nokf = norm_rl(o[n0 + 6]) if full and len(c["steps"]) > n0 + 6 else None
         klass = classify(c["q"], c["tags"], c["a"], c["b"], rl)
-        plan = o[-4].get("plan", "") if isinstance(o, list) and len(o) >= 4 and isinstance(o[-4], dict) else ""
+        plan = o[n0].get("plan", "") if full and isinstance(o[n0], dict) else ""
         if rl is None and ("(join right_outer" in plan or "(join full_outer" in plan):
             klass = "KF_C11_nl_right_full_todo"     # the cost model picked the nested-loop join, which has no RIGHT / FULL
         if rl is None and ("not found from input" in json.dumps(last) or "Apply is not supported" in json.dumps(last)):
             klass = "KF_C17_subquery_not_executable"
         if klass is None and rl is not None and c["ks"] is None and "pushable" in c["tags"] \
-                and (rl_off is None or sorted(map(json.dumps, rl_off)) == sorted(map(json.dumps, ref))):
+                and (rl_off is None or sorted(map(json.dumps, rl_off)) == sorted(map(json.dumps, ref))) \
+                and ((rl_nokf is not None and sorted(map(json.dumps, rl_nokf)) == sorted(map(json.dumps, ref)))
+                     # (without those rules a RIGHT / FULL join with such a condition stays a nested-loop join, which has no implementation)
+                     or (rl_nokf is None and ({"right", "full"} & c["tags"]))):
             klass = "KF_C01_outer_join_condition_pushdown"
         what = None
         if rl is None:
